@@ -392,7 +392,7 @@ func parent(id, tier string) int {
 		}
 		chunks = append(chunks, chunk{f, t})
 	}
-	timeout := 45 * time.Minute
+	timeout := 15 * time.Minute // a quick chunk takes seconds to a few minutes, even on a loaded machine
 	if tier == "thorough" {
 		timeout = 3 * time.Hour
 	}
